@@ -189,6 +189,20 @@ def finite_case(case):
                 v.append(violation("non_finite_score", {"score": sc}, **where))
         except Exception as e:  # noqa
             v.append(violation("score_raises_on_legal_input", {"error": repr(e)[:300]}, exc=type(e).__name__, **where))
+    # held-out batches as a cross-validation loop produces them: a single row, fewer rows than clusters - predict_proba and score complete
+    if y is None and name in M.INDUCTIVE:
+        for m_ in (1, 2):
+            try:
+                with warnings.catch_warnings():
+                    warnings.simplefilter("ignore")
+                    Xq = X[:m_]
+                    sq = model.score(Xq)
+                    okq = np.isfinite(sq) and (name == "Kauri" or np.all(np.isfinite(model.predict_proba(Xq)))) and len(model.predict(Xq)) == m_
+                if not okq:
+                    v.append(violation("non_finite_score", {"rows": m_, "score": sq}, **where))
+            except Exception as e:  # noqa
+                v.append(violation("score_raises_on_legal_input", {"rows": m_, "error": repr(e)[:300]}, exc=type(e).__name__, **where))
+                break
     if hist is not None:
         for i, h in enumerate(hist[1:]):
             if not np.all(np.isfinite(np.asarray(h, dtype=float))):
